@@ -383,6 +383,21 @@ class Check(Property):
             if "smoot" not in names:
                 v.append("C13 define('smoot = 1.7018 * meter') after the registry was built: smoot is "
                          "missing from get_compatible_units('meter') although a registry built with that line lists it")
+            # asking first for a dimensionality that no unit has does not change what a later definition does
+            for asked_first in (False, True):
+                u = regs.fresh("float")
+                u.default_system = None
+                if asked_first:
+                    u.get_compatible_units("meter ** 7")
+                try:
+                    u.define("weird7 = 3 * meter ** 7")
+                    got = sorted(str(x) for x in u.get_compatible_units("meter ** 7"))
+                    val = u.Quantity(2.0, "weird7").to("meter ** 7").magnitude
+                except Exception as exc:  # noqa: BLE001
+                    got, val = type(exc).__name__, None
+                if got != ["weird7"] or val != 6.0:
+                    v.append(f"C13 define('weird7 = 3 * meter ** 7') {'after' if asked_first else 'without'} a query "
+                             f"get_compatible_units('meter ** 7'): listing {got}, 2 weird7 = {val} m**7 (expected ['weird7'], 6.0)")
             u = self.mkreg()
             with u.context("c13ctx"):
                 u.define("zork = 2 * meter")
